@@ -119,13 +119,16 @@ func checkRewrite(graphBuilder *AuthorizationModelGraphBuilder, parentNode *Auth
 
 func parseThis(graphBuilder *AuthorizationModelGraphBuilder, parentNode graph.Node, typeDef *openfgav1.TypeDefinition, relation string) {
 	directlyRelated := make([]*openfgav1.RelationReference, 0)
-	var curNode *AuthorizationModelNode
 
 	if relationMetadata, ok := typeDef.GetMetadata().GetRelations()[relation]; ok {
 		directlyRelated = relationMetadata.GetDirectlyRelatedUserTypes()
 	}
 
 	for _, directlyRelatedDef := range directlyRelated {
+		// per restriction: a restriction that is neither a type, a wildcard nor a userset (e.g. a
+		// relation reference with an empty relation) must not reuse the node of the previous one
+		var curNode *AuthorizationModelNode
+
 		if directlyRelatedDef.GetRelationOrWildcard() == nil {
 			// direct assignment to concrete type
 			assignableType := directlyRelatedDef.GetType()
@@ -142,6 +145,11 @@ func parseThis(graphBuilder *AuthorizationModelGraphBuilder, parentNode graph.No
 			// direct assignment to userset
 			assignableUserset := directlyRelatedDef.GetType() + "#" + directlyRelatedDef.GetRelation()
 			curNode = graphBuilder.getOrAddNode(assignableUserset, assignableUserset, SpecificTypeAndRelation)
+		}
+
+		if curNode == nil {
+			// nothing to draw (a typed nil would also slip through the nil check of upsertEdge)
+			continue
 		}
 
 		// de-dup types that are conditioned, e.g. if define viewer: [user, user with condX]
